@@ -1,30 +1,37 @@
 (* C12 — dynamic metaclasses and their instances follow metamodel edits.
-   Statements only; proofs are in Proofs/C3Proofs.v and Proofs/MetaEditProofs.v.
+   Statements only; proofs are in Proofs/C3Proofs.v, Proofs/MetaEditProofs.v and
+   Proofs/MetaEditInv.v.
    Models: Model/C3.v (CPython's C3 linearisation, pyecore's replacement
    linearisation), Model/MetaEdit.v (EClass.notifyChanged / _update_supertypes /
    __compute_supertypes / __create_fun, class namespaces, __bases__ assignment,
    descriptor-first attribute lookup on instances).
 
    Full strength: the C3 theorems (no bound on the graph), the invariants for
-   every history.  `_partial` theorems and what they leave out:
-   - they speak of states in which pyecore has not replaced the linearisation
-     of its metaclass (flag st = false) and in which the linearisations that
-     Python caches are those of the current bases (`consistent st`: CPython
-     re-linearises a class and its subclasses at every __bases__ assignment;
-     the model does the same, computes this premise in every explored state
-     -- `consistentb`, part of what the correspondence compares -- but its
-     preservation by mro_hierarchy's depth-first traversal is not proved);
-     histories that install the replacement are covered by the correspondence only;
+   every history, and C12_cache_consistent_every_history: in every state
+   reached from the empty one without installing the replacement
+   linearisation, whatever the edits and their outcomes, the linearisations
+   Python caches are those of the current bases (mro_hierarchy's depth-first
+   traversal over the registered subclasses against partly stale caches
+   included; a failed assignment rolls back).
+   `_partial` theorems and what they leave out:
+   - the state-level ones (first group) take `consistent st` as a premise; the
+     `_history_partial` ones (last group) are the same statements for
+     fold_left next ops (empty_state fl) WITHOUT that premise, and for every
+     instance (its class always exists);
+   - all of them speak of states in which pyecore has not replaced the
+     linearisation of its metaclass (flag st = false); histories that install
+     the replacement are covered by the correspondence only;
    - histories are restricted by `side_condition` (a bulk clear() that stops
      half-way, a supertype edit for which even the replacement fails) and, for
      the "declared => visible" direction, `wf_op` (one declaration per name and
-     class; no behaviour attached under a feature name);
+     class; no behaviour attached under a feature name); the cache theorem
+     needs neither;
    - an instance that has touched a name keeps a slot in its own dict: for such
      instance/name pairs only the characterisation `visible => declared or slot
      held` is true, see C12_removed_feature_stays_readable_refuted (the known
      finding F-C12-stale-slot). *)
 From Coq Require Import String Ascii ZArith Bool List.
-From PyecoreV Require Import Lib.PyBase Lib.PyList Model.C3 Model.Operations Model.MetaEdit Proofs.C3Proofs Proofs.OperationsProofs Proofs.MetaEditProofs.
+From PyecoreV Require Import Lib.PyBase Lib.PyList Model.C3 Model.Operations Model.MetaEdit Proofs.C3Proofs Proofs.OperationsProofs Proofs.MetaEditProofs Proofs.MetaEditInv.
 Import ListNotations.
 Open Scope Z_scope.
 
@@ -207,3 +214,95 @@ Example C12_removed_feature_stays_readable_refuted :
   snd (getattr_m (next st (AddFeat 1 (FX true 0))) 0 X) = GSingle 5 /\
   snd (getattr_m (next (next st (AddFeat 1 (FX true 0))) (NewInst 1)) 1 X) = GColl [].
 Proof. vm_compute. repeat split; reflexivity. Qed.
+
+(* ---------- whole histories: the cache premise discharged ---------- *)
+
+(* the invariant behind it: local C3 consistency of every cache, the subclass
+   registry is the inverse of the bases relation, the bases graph is acyclic *)
+Theorem C12_cache_invariant_every_edit :
+  forall o st, (flag st = false -> GInv st) -> flag (next st o) = false ->
+    GInv (next st o) /\ flag st = false.
+Proof. exact step_GInv. Qed.
+Print Assumptions C12_cache_invariant_every_edit.
+
+Theorem C12_cache_invariant_gives_consistent :
+  forall st, GInv st -> flag st = false -> consistent st.
+Proof. exact GInv_consistent. Qed.
+Print Assumptions C12_cache_invariant_gives_consistent.
+
+Theorem C12_cache_consistent_every_history :
+  forall ops fl, flag (fold_left next ops (empty_state fl)) = false ->
+    consistent (fold_left next ops (empty_state fl)).
+Proof. exact history_consistent. Qed.
+Print Assumptions C12_cache_consistent_every_history.
+
+Theorem C12_instance_class_exists_every_history :
+  forall ops st, IC st -> IC (fold_left next ops st).
+Proof. exact history_IC. Qed.
+Print Assumptions C12_instance_class_exists_every_history.
+
+Theorem C12_visible_is_declared_history_partial :
+  forall ops fl i n x,
+    let st := fold_left next ops (empty_state fl) in
+    sides ops (empty_state fl) -> flag st = false -> geti st i = Some x -> visible st i n ->
+    (exists d, in_closure st (i_cls x) d /\
+       ((exists f, declares_feat st d n f) \/ (exists s, declares_op st d n s) \/
+        (exists b, ns_get n (ns_of st d) = Some (EBeh b))))
+    \/ has_slot st i n.
+Proof. exact history_visible_sound. Qed.
+Print Assumptions C12_visible_is_declared_history_partial.
+
+Theorem C12_declared_is_visible_history_partial :
+  forall ops fl i x d n,
+    let st := fold_left next ops (empty_state fl) in
+    wf_history ops (empty_state fl) -> flag st = false -> geti st i = Some x ->
+    in_closure st (i_cls x) d ->
+    ((exists f, declares_feat st d n f) \/ (exists s, declares_op st d n s)) ->
+    visible st i n.
+Proof. exact history_declared_is_visible. Qed.
+Print Assumptions C12_declared_is_visible_history_partial.
+
+Theorem C12_visible_iff_declared_history_partial :
+  forall ops fl i x n,
+    let st := fold_left next ops (empty_state fl) in
+    wf_history ops (empty_state fl) -> flag st = false -> geti st i = Some x ->
+    ns_get n (i_dict x) = None ->
+    (forall d b, ns_get n (ns_of st d) = Some (EBeh b) -> exists s, declares_op st d n s) ->
+    (visible st i n <->
+     exists d, in_closure st (i_cls x) d /\
+       ((exists f, declares_feat st d n f) \/ (exists s, declares_op st d n s))).
+Proof. exact history_visible_iff_declared. Qed.
+Print Assumptions C12_visible_iff_declared_history_partial.
+
+Theorem C12_declared_feature_is_the_one_found_history_partial :
+  forall ops fl c l d n f,
+    let st := fold_left next ops (empty_state fl) in
+    wf_history ops (empty_state fl) -> flag st = false -> mro st c = Some l -> in_closure st c d ->
+    declares_feat st d n f ->
+    (forall z, In z l -> z <> d -> ns_get n (ns_of st z) = None) ->
+    class_lookup st c n = Some (EFeat f).
+Proof. exact history_declared_feature_lookup. Qed.
+Print Assumptions C12_declared_feature_is_the_one_found_history_partial.
+
+Theorem C12_isinstance_is_closure_history_partial :
+  forall ops fl i c x,
+    let st := fold_left next ops (empty_state fl) in
+    sides ops (empty_state fl) -> flag st = false -> geti st i = Some x -> c <> 0 ->
+    (isinstance_m st i c = true <-> in_closure st (i_cls x) c).
+Proof. exact history_isinstance_closure. Qed.
+Print Assumptions C12_isinstance_is_closure_history_partial.
+
+(* the premises are satisfiable: diamond D(B, C), B(A), C(A), a subclass E(D)
+   with an instance; x declared on C; C removed from D's supertypes (E is
+   re-linearised with D) and added again *)
+Example C12_history_witness :
+  let h1 := [NewClass []; NewClass [1]; NewClass [1]; NewClass [2; 3]; NewClass [4]; NewInst 5;
+             AddFeat 3 (FX false 5); RemoveSuper 4 3] in
+  let h := (h1 ++ [AddSuper 4 3])%list in
+  let mid := fold_left next h1 (empty_state false) in
+  let st := fold_left next h (empty_state false) in
+  wf_history h (empty_state false) /\ flag st = false /\ geti st 0 = Some (mkInst 5 []) /\
+  mro mid 5 = Some [5; 4; 2; 1; 0] /\ isinstance_m mid 0 3 = false /\ snd (step (Get 0 X) mid) = RErr XAttr /\
+  mro st 5 = Some [5; 4; 2; 3; 1; 0] /\ isinstance_m st 0 3 = true /\ snd (step (Get 0 X) st) = ROk [1; 5].
+Proof. vm_compute. repeat split; try reflexivity; try discriminate; try (intros ? ?; discriminate);
+       intros k E; inversion E; subst; simpl; tauto. Qed.
